@@ -117,6 +117,10 @@ def c20(ctx):
     ctx.assumptions += ["half of the churn programs free recycled tables at once (maxIdleTableTimeout = 0), the other half keep them for an hour",
                         "the fragments of the cluster part are read through the verif-tagged accessor dmap.VerifStats"]
     cov = kv_run(ctx, "C20", ["Accounting", "BoundedAfterCompaction", "CompactionProgress"], "storage accounting / boundedness")
+    # the members' compaction worker against the life of a fragment (janitor, Destroy): it always gets through a slot; with
+    # Fragment.Compaction reporting "not done" for a closed fragment (the code as found, D30) it must spin for ever
+    vlib.design_check(ctx, "FragLife", "FragLife_live.cfg", name="fraglife-live")
+    vlib.design_expect_violation(ctx, "FragLife", "FragLife_spin.cfg", "WorkerReturns", "D30 (repaired)", name="fraglife-spin")
     # the same bound on real members whose own compaction worker and janitor do the work, for primary AND backup fragments
     out = ctx.dir("drv")
     rc, o = vlib.go_test(ctx, "reg", "TestC20Cluster", env={"VERIF_OUT": out, "VERIF_C20_ROUNDS": 3000 if quick else 40000}, timeout=1500)
@@ -598,9 +602,12 @@ def c13(ctx):
     rule = ("join/leave/write event sequences exported by TLC from Routing.tla (one per distinct model state, de-duplicated on their membership events) "
             "plus seeded random sequences over up to 6 members with graceful leaves, abrupt stops, departure of the coordinator and re-join under the same address; "
             "R in {1,2,3}, partition counts {7,13,71}; after every membership event the cluster is stabilised and every member's and a client's table, the holders of "
-            "data and sample key placements are logged; non-trivial = at least two membership changes")
+            "data and sample key placements are logged - after a join also at the push-only fixpoint, before any data has moved; non-trivial = at least two membership changes")
     r = vlib.design_check(ctx, "Routing", "Routing.cfg", consts={"Export": "TRUE", "MaxEvents": 3 if quick else 4, "MaxWrites": 1 if quick else 2},
                           name="routing-design", timeout=1500)
+    # the table at a push-only fixpoint (data still to be moved): a former backup holder that is kept on the list only when it
+    # is among the closest members (seeded change S-C03-6) leaves the coordinator's table different from everybody else's for ever
+    vlib.design_expect_violation(ctx, "Routing", "Routing_closest.cfg", "PushFixpointAgreement", "seeded change S-C03-6", name="routing-closest")
     paths = set()
     for b in vlib.behaviours(r):
         evs = json.loads(b)
